@@ -11,7 +11,8 @@ import (
 
 // diagtree (C18): the entity tree pipeline.Validate() returns, unflattened (sibling entities that
 // share kind and name stay apart), the entities GetDiagnosticsWithSeverity(Error) selects, in order,
-// and the text DiagnosticsToError makes of them (= the error Run() returns).
+// and the text DiagnosticsToError makes of them (= the error Run() returns).  With "rounds": k the trees of
+// k-1 further Validate() calls on the same pipeline ("later_rounds").
 
 type dtDiag struct {
 	Code      string `json:"code"`
@@ -79,6 +80,23 @@ func init() {
 			tree = append(tree, toDtEntity(e))
 		}
 		res["tree"] = tree
+		// "rounds": k > 1 - Validate() again, k-1 more times, on the SAME pipeline (no GenerateGraph in between: what a
+		// host does that prints the warnings and then validates again); every later round's tree, serialised as it
+		// is returned
+		later := [][]dtEntity{}
+		for r := 1; r < req.Rounds; r++ {
+			again, aerr := pipe.Validate()
+			if aerr != nil {
+				res["validate_again_err"] = aerr.Error()
+				break
+			}
+			t := []dtEntity{}
+			for _, e := range again {
+				t = append(t, toDtEntity(e))
+			}
+			later = append(later, t)
+		}
+		res["later_rounds"] = later
 		errEnts := diagnostics.GetDiagnosticsWithSeverity(diags, []diagnostics.DiagnosticSeverity{diagnostics.DiagnosticError})
 		selected := []string{}
 		for _, e := range errEnts {
